@@ -409,6 +409,9 @@ def write_evidence(run, prep, trusted, checker_cmd, level="proof", violations=0,
         "broken_obligations": run.broken,
         "known_findings_hit": run.known_hits,
     }
+    obs = {k: v for k, v in run.info.items() if k != "rule"}
+    if obs:
+        cov["observations"] = obs
     if extra:
         cov.update(extra)
     ev = {
